@@ -558,6 +558,28 @@ func genHash(g *gen, th bool, scale int) {
 
 func genJSON(g *gen, th bool, scale int) {
 	r := g.r
+	// ---------- gojqx.ToGoJQValue's integer demotion rule, on every static Go integer type
+	for _, e := range intEdges {
+		n, _ := new(big.Int).SetString(e, 10)
+		for d := int64(-2); d <= 2; d++ {
+			m := new(big.Int).Add(n, big.NewInt(d))
+			g.add(true, "normint big %s", m)
+			if m.IsInt64() {
+				g.add(true, "normint int %s", m)
+				g.add(true, "normint int64 %s", m)
+			}
+			if m.IsUint64() {
+				g.add(true, "normint uint64 %s", m)
+			}
+		}
+	}
+	for k := 0; k < 300*scale; k++ {
+		m := new(big.Int).SetBytes(r.Bytes(r.Range(1, 12)))
+		if r.Bool() {
+			m.Neg(m)
+		}
+		g.add(true, "normint big %s", m)
+	}
 	jg := &jsonGen{r: r, intBits: 300}
 	// ---------- JSON text: tojson | fromjson on the int/string/array/object/bool/null fragment
 	for _, w := range []string{"n", "t", "f", "i0", "i-1", "s-", "[]", "{}", "[[]]", "[{}]", "{s-:n}", "{s61:[i1,{s62:s63}]}"} {
@@ -599,6 +621,20 @@ func genJSON(g *gen, th bool, scale int) {
 	}
 	for k := 0; k < 300*scale; k++ {
 		g.add(true, "json rt %s", wireOf(jg.integer()))
+	}
+	// arrays of objects nested in arrays of objects (depth <= 4), empty containers at every
+	// position, keys that need quoting, integers at the int32 / 2^53 / int64 / uint64 edges
+	for k := 0; k < 600*scale; k++ {
+		v := wireOf(jg.aoo(r.Range(1, 4)))
+		g.add(true, "json rt %s", v)
+		g.add(true, "jqlit rt %s", v)
+		g.add(true, "jsonind rt 2 %s", v)
+		g.add(true, "jqlitind rt 2 %s", v)
+	}
+	for _, e := range intEdges {
+		w := wireOf(map[string]any{"a": mustInt(e), "l": []any{mustInt(e), []any{map[string]any{"n": mustInt(e)}}}})
+		g.add(true, "json rt %s", w)
+		g.add(true, "jqlit rt %s", w)
 	}
 	// ---------- indented output: tojson({indent:n}) | fromjson, to_jq({indent:n}) | from_jq
 	for _, w := range []string{"n", "i-1", "s-", "[]", "{}", "[[]]", "[{}]", "{s-:[]}", "[i1]", "[i1,i2]", "{s61:i1}", "{s61:i1,s62:[i2,{s63:n,s2d:[[]]}]}", "[[[[i1]]]]"} {
@@ -882,4 +918,12 @@ func genCSV(g *gen, th bool, scale int) {
 		}
 		g.add(true, "csv dec %s", hx(sb))
 	}
+}
+
+func mustInt(s string) any {
+	v, err := parseInt(s)
+	if err != nil {
+		panic(err)
+	}
+	return v
 }
